@@ -43,6 +43,8 @@ SOURCES = {
 }
 # restoration targets that were reviewed and are deliberately not sources, with reason
 NON_SOURCES = {
+    "name": "line_to_variables restores the declarator as a whole; the FortranVariable constructor cuts the array specification / "
+            "char-length (the only parts that can hold a literal) off into `dimension`, which is a source",
     "kind": "parse_type restores a literal inside kind=...; shown through full_type (recorded as C18.R1 kind finding if it ever reaches an unescaped sink: see note)",
 }
 
@@ -102,6 +104,23 @@ def restoration_sites(py) -> List[Tuple[str, ast.AST, str]]:
         out = nxt
         if not changed:
             break
+    return out
+
+
+def restoration_helpers(py) -> Set[str]:
+    """names of functions that put the literals back into their argument and return the result"""
+    out: Set[str] = set()
+    for mod, fn in py.all_functions():
+        if mod != "sourceform":
+            continue
+        for n in ast.walk(fn):
+            if isinstance(n, ast.Assign) and py.enclosing_function(n) is fn and isinstance(n.targets[0], ast.Name) and any(
+                    call_name(c) == "QUOTES_RE.sub" for c in py.walk_calls(n.value)):
+                name = n.targets[0].id
+                if any(isinstance(r, ast.Return) and isinstance(r.value, ast.Name) and r.value.id == name for r in ast.walk(fn)) and \
+                        any("strings[" in ast.unparse(x) or (isinstance(x, ast.Subscript) and isinstance(x.value, ast.Name)
+                                                             and x.value.id in {a.arg for a in fn.args.args}) for x in ast.walk(fn)):
+                    out.add(fn.name)
     return out
 
 
@@ -397,7 +416,7 @@ def r3_heading(ctx, rep):
     rep.ob("proc_line arguments", bool(a), "heading prints proc.args|join(', ') (declaration order)"
            if a else "proc_line no longer prints the argument list from proc.args", "ford/templates/macros.html")
     r = has(r"\.retvar\.name$")
-    okr = bool(r) and any(re.search(r"(\S+)\.name != \1\.retvar\.name", sym(c[2]) if not isinstance(c[0], str) else c[0]) and c[1]
+    okr = bool(r) and any(re.search(r"([\w.\[\]*]+)\.name(?:\|\w+)? != \1\.retvar\.name(?:\|\w+)?", sym(c[2]) if not isinstance(c[0], str) else c[0]) and c[1]
                           for o in r for c in o.conds)
     rep.ob("proc_line result clause", okr,
            "result(name) printed iff the result name differs from the function name" if okr else
@@ -692,7 +711,11 @@ def r11_displayed_text_is_unmasked(ctx, rep):
                 best = (ln, v)
         return best
 
+    helpers = restoration_helpers(py)
+
     def is_restored(fn, q: str, value: ast.AST, at: int) -> bool:
+        if isinstance(value, ast.Call) and call_name(value).split(".")[-1] in helpers:
+            return True          # restored on the spot: f(_restore(x))
         seen: Set[str] = set()
         todo = [(n.id, at) for n in ast.walk(value) if isinstance(n, ast.Name)]
         while todo:
@@ -738,8 +761,40 @@ def r11_displayed_text_is_unmasked(ctx, rep):
                    "restored before the attribute is kept" if ok else
                    f"`{ast.unparse(c)[:60]}` keeps the masked attribute text: `integer, bind(C, name=\"my_var\") :: iv` is documented as "
                    f"`bind(C, name=\"0\")`", py.nloc(c), nontrivial=not ok)
+    # (c) kind and length selectors: what parse_type hands back
+    pt = py.ifunc("sourceform.parse_type")
+    q = py.qualname(pt)
+    m = 0
+    for r in ast.walk(pt):
+        if isinstance(r, ast.Return) and isinstance(r.value, ast.Call) and py.enclosing_function(r) is pt:
+            for kw in r.value.keywords:
+                if kw.arg in ("kind", "strlen") and not isinstance(kw.value, ast.Constant):
+                    m += 1
+                    ok = is_restored(pt, q, kw.value, r.lineno)
+                    rep.ob(f"parse_type returns `{kw.arg}` with its literals put back (`{ast.unparse(kw.value)[:30]}`)", ok,
+                           "restored before it is returned" if ok else
+                           f"`{ast.unparse(r)[:70]}` hands back the masked selector: `character(len=len('abc'))` is documented as "
+                           f"`len=len(\"0\")`", py.nloc(r), nontrivial=True)
+    if m < 3:
+        raise AnalysisError(f"parse_type: only {m} returned kind/strlen selectors found")
+    # (d) the declared entity itself: its array specification is cut out of the name by the constructor
+    for k in py.walk_calls(lv):
+        if call_name(k) == "FortranVariable" and k.args:
+            n += 1
+            q = py.qualname(lv)
+            ok = is_restored(lv, q, k.args[0], k.lineno)
+            rep.ob("the declared entity (name and array specification) has its literals put back", ok,
+                   "restored before the variable is constructed" if ok else
+                   f"`FortranVariable({ast.unparse(k.args[0])}, ...)` receives the masked declarator: `integer :: v(len('abc'))` is "
+                   f"documented with the dimension `(len(\"0\"))`", py.nloc(k), nontrivial=not ok)
     if n < 2:
         raise AnalysisError("PARAMETER-statement store or inline attribute store not found")
+
+def r12_sub_templates(ctx, rep):
+    """see C02.R9: a literal restored through an unescaped replacement template is not shown literally"""
+    from . import c02
+    c02.r9_sub_templates(ctx, rep)
+
 
 RULES = [
     RuleSpec("C18.R5", r5_selector_regexes, "kind/len selector regexes capture the whole expression", floor=2),
@@ -754,4 +809,5 @@ RULES = [
     RuleSpec("C18.R10", r10_initial_value_is_whole, "the initial value is everything after the first `=`", floor=1),
     RuleSpec("C18.R11", r11_displayed_text_is_unmasked, "text kept for display has its literals put back", floor=2),
     RuleSpec("C18.R8", r8_literal_continuation, "continued literals keep their blanks (shared with C02.R5)", floor=3),
+    RuleSpec("C18.R12", r12_sub_templates, "restored literals survive the replacement template (shared with C02.R9)", floor=5),
 ]
